@@ -332,6 +332,7 @@ func c13RestOfC13(p *Prog, r *Report) {
 	lostWrites(p, r, "C13.lost-writes")
 	c13MeasurementIdFilter(p, r)
 	c13YamlWriter(p, r)
+	c13RuneSlicing(p, r)
 }
 
 // soilSiblingPair: the two soil readers fill the same destinations with the same value shape (shared with C15.R7)
@@ -1473,4 +1474,65 @@ func c13YamlWriter(p *Prog, r *Report) {
 		})
 	}
 	r.Ob("yaml-writer:scanned", "-", n == 0 && nodes > 0, fmt.Sprintf("%d call(s) hand a value to the YAML encoder, %d assignment(s) to a node's Value text", nodes, n))
+}
+
+// ---------------------------------------------------------------- converter and reader slice a line the same way
+
+// c13RuneSlicing: the classic crop reader indexes the line with the perennial/legume flags and the initial organ
+// weights by CHARACTER (it converts the line to runes first), because the label part of that line may hold non-ASCII
+// text.  The converter reads the same columns of the same line; it must index by character too, or a label with an
+// umlaut shifts every column it reads.  Demanded: the set of column expressions taken from rune-typed lines is the
+// same in the reader and in the converter.
+func c13RuneSlicing(p *Prog, r *Report) {
+	r.Rule("C13.rune-columns", "the classic crop reader and the classic-to-YAML converter take the same columns from character-indexed (rune) lines: a line one of them indexes by character is not indexed by byte in the other", 1)
+	cols := func(key string) (map[string]bool, bool) {
+		fi := p.Funcs[key]
+		if fi == nil {
+			return nil, false
+		}
+		info := fi.Pkg.TypesInfo
+		out := map[string]bool{}
+		isRunes := func(e ast.Expr) bool {
+			sl, ok := info.TypeOf(e).Underlying().(*types.Slice)
+			if !ok {
+				return false
+			}
+			b, ok := sl.Elem().Underlying().(*types.Basic)
+			return ok && b.Kind() == types.Int32
+		}
+		ast.Inspect(fi.Decl.Body, func(n ast.Node) bool {
+			switch t := n.(type) {
+			case *ast.SliceExpr:
+				if isRunes(t.X) && t.Low != nil && t.High != nil {
+					out["["+types.ExprString(t.Low)+":"+types.ExprString(t.High)+"]"] = true
+				}
+			case *ast.IndexExpr:
+				if isRunes(t.X) {
+					out["["+types.ExprString(t.Index)+"]"] = true
+				}
+			}
+			return true
+		})
+		return out, true
+	}
+	a, okA := cols("hermes.ReadCropParamClassic")
+	b, okB := cols("hermes.ConvertCropParamClassicToYml")
+	if !okA || !okB {
+		r.Ob("rune-columns", "-", false, "reader or converter not found")
+		return
+	}
+	var onlyA, onlyB []string
+	for k := range a {
+		if !b[k] {
+			onlyA = append(onlyA, k)
+		}
+	}
+	for k := range b {
+		if !a[k] {
+			onlyB = append(onlyB, k)
+		}
+	}
+	sort.Strings(onlyA)
+	sort.Strings(onlyB)
+	r.Ob("rune-columns", "-", len(a) > 0 && len(onlyA) == 0 && len(onlyB) == 0, fmt.Sprintf("%d column expression(s) on character-indexed lines in the reader, %d in the converter; only in the reader: %v; only in the converter: %v", len(a), len(b), onlyA, onlyB))
 }
